@@ -202,3 +202,109 @@ lemma(
     ensures=[f"not ({no_orig('h', 'p')})"],
     props=["C04"],
 )
+
+# --- _validate_new_hash_list (C04): a 'new' entry becomes 'verified' only next to an entry that verified in this generation
+def ENT(j, k):
+    return f"hash_list.media_hashes[{j}].hash_entries[{k}]"
+
+
+POST_E = "({e}.action == ('verified' if old({e}.action) == 'new' else old({e}.action)))"
+contract(
+    "ascmhl.history.MHLHistory._validate_new_hash_list",
+    params={"hash_list": "MHLHashList"},
+    returns="bool",
+    modifies=["*.action"],
+    requires=[
+        # ownership: the entries of the new hash list are pairwise distinct objects
+        f"all({ENT('j','k')} != {ENT('j2','k2')} for j in range(len(hash_list.media_hashes)) for k in range(len(hash_list.media_hashes[j].hash_entries))"
+        f" for j2 in range(len(hash_list.media_hashes)) for k2 in range(len(hash_list.media_hashes[j2].hash_entries)) if j != j2 or k != k2)",
+    ],
+    raises={
+        "AssertionError": f"any(any(old({ENT('j','k')}.action) == 'new' for k in range(len(hash_list.media_hashes[j].hash_entries)))"
+        f" and all(old({ENT('j','k')}.action) != 'verified' for k in range(len(hash_list.media_hashes[j].hash_entries))) for j in range(len(hash_list.media_hashes)))",
+    },
+    ensures=[
+        "result == True",
+        f"all({POST_E.format(e=ENT('j','k'))} for j in range(len(hash_list.media_hashes)) for k in range(len(hash_list.media_hashes[j].hash_entries)))",
+        # every record that had a 'new' entry had a 'verified' one
+        f"all(all(old({ENT('j','k')}.action) != 'new' for k in range(len(hash_list.media_hashes[j].hash_entries)))"
+        f" or any(old({ENT('j','k')}.action) == 'verified' for k in range(len(hash_list.media_hashes[j].hash_entries))) for j in range(len(hash_list.media_hashes)))",
+    ],
+    loops={
+        0: Loop(invariant=[
+            f"all({POST_E.format(e=ENT('j','k'))} for j in range(_i) for k in range(len(hash_list.media_hashes[j].hash_entries)))",
+            f"all({ENT('j','k')}.action == old({ENT('j','k')}.action) for j in range(_i, len(hash_list.media_hashes)) for k in range(len(hash_list.media_hashes[j].hash_entries)))",
+            f"all(all(old({ENT('j','k')}.action) != 'new' for k in range(len(hash_list.media_hashes[j].hash_entries)))"
+            f" or any(old({ENT('j','k')}.action) == 'verified' for k in range(len(hash_list.media_hashes[j].hash_entries))) for j in range(_i))",
+        ]),
+        1: Loop(invariant=[
+            f"all({POST_E.format(e=ENT('j','k'))} for j in range(_i0) for k in range(len(hash_list.media_hashes[j].hash_entries)))",
+            f"all({ENT('j','k')}.action == old({ENT('j','k')}.action) for j in range(_i0 + 1, len(hash_list.media_hashes)) for k in range(len(hash_list.media_hashes[j].hash_entries)))",
+            f"all({POST_E.format(e=ENT('_i0','k'))} for k in range(_i))",
+            f"all({ENT('_i0','k')}.action == old({ENT('_i0','k')}.action) for k in range(_i, len(media_hash.hash_entries)))",
+            "media_hash == hash_list.media_hashes[_i0]",
+            "_seq == media_hash.hash_entries",
+            # the comprehension result: empty iff no entry of this record had action 'verified' at the start of the record
+            f"(len(verified_hash_entries) == 0) == all(old({ENT('_i0','k')}.action) != 'verified' for k in range(len(media_hash.hash_entries)))",
+            f"all(all(old({ENT('j','k')}.action) != 'new' for k in range(len(hash_list.media_hashes[j].hash_entries)))"
+            f" or any(old({ENT('j','k')}.action) == 'verified' for k in range(len(hash_list.media_hashes[j].hash_entries))) for j in range(_i0))",
+            f"all(old({ENT('_i0','k')}.action) != 'new' for k in range(_i)) or len(verified_hash_entries) > 0",
+        ]),
+    },
+    locals={"verified_hash_entries": "list[MHLHashEntry]"},
+    props=["C04"],
+)
+
+# --- numbering and naming of a new generation (C06)
+INV1 = "all(self.hash_lists[g].generation_number == g + 1 for g in range(len(self.hash_lists)))"
+contract(
+    "ascmhl.utils.datetime_now_filename_string",
+    trusted=True,
+    note="strftime of now(timezone.utc): library glue; that the argument is the UTC clock is a separate obligation on the source (vf/statics.py)",
+    returns="str",
+    pure=True,
+    ensures=["result == utc_filename_stamp()"],
+)
+contract(
+    "ascmhl.history.MHLHistory._new_generation_filename",
+    returns="tuple[str,int]",
+    pure=True,
+    requires=[INV1, "self.asc_mhl_path is not None and self.asc_mhl_path != ''"],
+    ensures=[
+        "result[1] == len(self.hash_lists) + 1",
+        "result[0] == fmt_int('04d', len(self.hash_lists) + 1) + '_' + p_basename(p_normpath(p_dirname(self.asc_mhl_path))) + '_' + utc_filename_stamp() + '.mhl'",
+    ],
+    props=["C06"],
+)
+contract(
+    "ascmhl.hashlist_xml_parser.write_hash_list",
+    trusted=True,
+    note="the manifest writer: its file-system effects are covered by the frame / crash obligations (C14, C15), its element builders by "
+    "contracts/xmlwriter.py; assumed here: it records the path it wrote to",
+    params={"hash_list": "MHLHashList", "file_path": "str"},
+    modifies=["hash_list.file_path"],
+    fs_modifies=["file_path"],
+    ensures=["hash_list.file_path == file_path"],
+)
+contract(
+    "ascmhl.history.MHLHistory.write_new_generation",
+    params={"new_hash_list": "MHLHashList"},
+    requires=[
+        INV1,
+        "self.asc_mhl_path is not None and self.asc_mhl_path != ''",
+        "new_hash_list.process_info.hashlist_custom_basename is None",
+        f"all({ENT('j','k')} != {ENT('j2','k2')} for j in range(len(hash_list.media_hashes)) for k in range(len(hash_list.media_hashes[j].hash_entries))"
+        f" for j2 in range(len(hash_list.media_hashes)) for k2 in range(len(hash_list.media_hashes[j2].hash_entries)) if j != j2 or k != k2)".replace("hash_list.", "new_hash_list."),
+        "all(new_hash_list != self.hash_lists[g] for g in range(len(self.hash_lists)))",
+    ],
+    modifies=["*.action", "new_hash_list.generation_number", "new_hash_list.file_path", "self.hash_lists"],
+    raises={"AssertionError": "True"},
+    ensures=[
+        # exactly one generation is appended, numbered one above the highest existing one; the representation invariant is kept
+        "self.hash_lists == old(self.hash_lists) + [new_hash_list]",
+        "new_hash_list.generation_number == len(old(self.hash_lists)) + 1",
+        INV1,
+        "new_hash_list.file_path == p_join(self.asc_mhl_path, fmt_int('04d', len(old(self.hash_lists)) + 1) + '_' + p_basename(p_normpath(p_dirname(self.asc_mhl_path))) + '_' + utc_filename_stamp() + '.mhl')",
+    ],
+    props=["C06"],
+)
